@@ -167,6 +167,38 @@ fn c08_local(rep: &mut Rep, r: &mut Rng, extra: usize) {
       }
     }
   }
+  // an executor that is held up for several periods after the first tick (the thread sleeps
+  // while nothing runs): when it resumes, the later ticks are still at least one period apart
+  // (nothing "makes up" for the ticks that were missed) and still numbered consecutively
+  for (k, p) in [us(400), us(1000), us(2500)].into_iter().enumerate() {
+    let case = format!("rt:held_up:{}", k);
+    let locus = "interval[real-timer]";
+    let mut pool = LocalPool::new();
+    let seen: Rc<RefCell<Vec<(usize, Instant)>>> = Default::default();
+    let s2 = seen.clone();
+    let t0 = Instant::now();
+    observable::interval(p, pool.spawner()).take(5).subscribe(move |v| s2.borrow_mut().push((v, Instant::now())));
+    // run until the first tick has been seen, then stall for more than three periods
+    let watchdog = Instant::now() + Duration::from_secs(10);
+    while seen.borrow().is_empty() && Instant::now() < watchdog {
+      pool.run_until_stalled();
+      std::thread::sleep(us(100));
+    }
+    std::thread::sleep(p * 3 + us(500));
+    pool.run();
+    rep.count("real_timer_cases", 1);
+    rep.count("executors_held_up_for_several_periods", 1);
+    let seen = seen.borrow();
+    let vals: Vec<usize> = seen.iter().map(|s| s.0).collect();
+    if vals != vec![0, 1, 2, 3, 4] {
+      rep.violation("wrong_sequence_numbers", locus, &case, json!({"observed": vals, "expected": [0, 1, 2, 3, 4]}));
+      continue;
+    }
+    early("first tick", rep, locus, &case, t0, p, seen[0].1);
+    for w in seen.windows(2) {
+      early("tick after the previous one (the executor had been held up)", rep, locus, &case, w[0].1, p, w[1].1);
+    }
+  }
   // due-after-idle: the first wait of interval / interval_at starts at subscription
   for (k, p) in [us(300), us(1000), us(1400), us(2500)].into_iter().enumerate() {
     for at_form in [false, true] {
@@ -403,6 +435,34 @@ fn c19_local(rep: &mut Rep, r: &mut Rng, extra: usize) {
       rep.count("real_timer_cases", 1);
       let seen = runs.0.lock().unwrap().clone();
       check_ticks(rep, locus, &case, t0, first, d, &seen);
+    }
+  }
+  // a repeating task whose executor is held up for several periods after the first run
+  for (k, p) in [us(400), us(1000), us(2500)].into_iter().enumerate() {
+    let case = format!("rt:repeat_held_up:{}", k);
+    let locus = "RepeatTask::new[real-timer]";
+    let mut pool = LocalPool::new();
+    let runs = Runs::default();
+    let t0 = Instant::now();
+    let _h = pool.spawner().schedule(RepeatTask::new(p, repeat_body, (runs.clone(), 5)), None);
+    let watchdog = Instant::now() + Duration::from_secs(10);
+    while runs.0.lock().unwrap().is_empty() && Instant::now() < watchdog {
+      pool.run_until_stalled();
+      std::thread::sleep(us(100));
+    }
+    std::thread::sleep(p * 3 + us(500));
+    pool.run();
+    rep.count("real_timer_cases", 1);
+    rep.count("executors_held_up_for_several_periods", 1);
+    let seen = runs.0.lock().unwrap().clone();
+    let seqs: Vec<usize> = seen.iter().map(|s| s.0).collect();
+    if seqs != vec![0, 1, 2, 3, 4] {
+      rep.violation("wrong_sequence_numbers", locus, &case, json!({"observed": seqs, "expected": [0, 1, 2, 3, 4]}));
+      continue;
+    }
+    early("first run", rep, locus, &case, t0, p, seen[0].1);
+    for w in seen.windows(2) {
+      early("run after the previous one (the executor had been held up)", rep, locus, &case, w[0].1, p, w[1].1);
     }
   }
   // delays far beyond any run: the body may not run while we watch
